@@ -133,6 +133,11 @@ def replay(path):
     from .. import lprun
     with open(path) as f:
         payload = json.load(f)
+    sp = sweep.replay_special(payload)
+    if sp is not None:
+        print("recorded:", payload.get("what"))
+        print("REPRODUCED" if sp else "NOT REPRODUCED")
+        return 1 if sp else 0
     obs = sweep.replay_item(payload)
     print("argv:", payload["argv"])
     print(payload["file"])
